@@ -921,7 +921,8 @@ def configs(thorough):
     for fam in ('monotonic', 'sorting'):
         for asc in (True, False):
             for outer in (False, True):
-                for idx in INDEXES:
+                # (order is by POSITION: a negative index addresses a late position although it is a small number)
+                for idx in INDEXES + [[0, -1], [-1, 0], [1, -2]] + ([[0, 2, -1], [-1, -3], [-3, 1]] if thorough else []):
                     C.append({'fam': fam, 'asc': asc, 'outer': outer, 'index': idx})
     # settings changed through the decorated function's own setter after it has been used once
     def _tup(i):
